@@ -667,6 +667,65 @@ def _flatten_item_ty(v):
 
 ADAPTER_NEXT[FLATTEN] = ad_flatten_next
 
+FILTER = 'core::iter::adapters::filter::Filter'
+FILTER_MAP = 'core::iter::adapters::filter_map::FilterMap'
+
+
+def ad_filter_next(E, st, ptr, v, fid, item_ty=None):
+    """Filter::next: pull from the inner iterator until the predicate (given a reference to the item) says yes"""
+    it_ptr = _field_ptr(E, st, ptr, 0)
+    cellp = _field_ptr(E, st, ptr, 1)
+
+    def on_item(s, item):
+        ip2 = pin(s, fid, item)
+        out = []
+        for kind, s2, r in E.call_at(s, cellp, [('ref', False, ip2)], fid):
+            if kind == 'unwind':
+                out.append(('done', 'unwind', s2, None))
+                continue
+            it2 = E.load(s2, ip2)
+            unpin(s2, ip2)
+            yes, no = E.split_bool(s2, r, True)
+            if yes is not None:
+                yes.log('found', E.tag_of(it2))
+                out.append(('done', 'ret', yes, some(it2)))
+            if no is not None:
+                out.append(('cont', no))
+        return out
+
+    def on_none(s):
+        return [('ret', s, NONE)]
+
+    return consume(E, st, fid, it_ptr, on_item, on_none, ('filter', fid))
+
+
+def ad_filter_map_next(E, st, ptr, v, fid, item_ty=None):
+    """FilterMap::next: pull from the inner iterator until the closure answers Some(..)"""
+    it_ptr = _field_ptr(E, st, ptr, 0)
+    cellp = _field_ptr(E, st, ptr, 1)
+
+    def on_item(s, item):
+        out = []
+        for kind, s2, r in E.call_at(s, cellp, [item], fid):
+            if kind == 'unwind':
+                out.append(('done', 'unwind', s2, None))
+                continue
+            for s3, c in opt_cases(E, s2, r, fid):
+                if c is None:
+                    out.append(('cont', s3))
+                else:
+                    out.append(('done', 'ret', s3, some(c[1])))
+        return out
+
+    def on_none(s):
+        return [('ret', s, NONE)]
+
+    return consume(E, st, fid, it_ptr, on_item, on_none, ('filter_map', fid))
+
+
+ADAPTER_NEXT[FILTER] = ad_filter_next
+ADAPTER_NEXT[FILTER_MAP] = ad_filter_map_next
+
 
 # ------------------------------------------------------------------------------- adaptors (lazy)
 def _adapter(path):
@@ -683,6 +742,10 @@ REGISTRY[IT + 'rev'] = _adapter(REV)
 MODEL_DOC[IT + 'rev'] = 'lazy: pulls from the back'
 REGISTRY[IT + 'flatten'] = _adapter(FLATTEN)
 MODEL_DOC[IT + 'flatten'] = 'lazy: flattens'
+REGISTRY[IT + 'filter'] = _adapter(FILTER)
+MODEL_DOC[IT + 'filter'] = 'lazy: yields the items for which the predicate answers true'
+REGISTRY[IT + 'filter_map'] = _adapter(FILTER_MAP)
+MODEL_DOC[IT + 'filter_map'] = 'lazy: yields x for the items on which the closure answers Some(x)'
 REGISTRY[IT + 'cloned'] = _adapter(CLONED)
 MODEL_DOC[IT + 'cloned'] = 'lazy: clones each item'
 REGISTRY[IT + 'copied'] = _adapter(COPIED)
@@ -1538,6 +1601,34 @@ def m_opt_zip(E, st, fid, t, args, dest_ty):
 def m_ok_or(E, st, fid, t, args, dest_ty):
     return [('ret', s, ('adt', RESULT, 1, (args[1],)) if c is None else ('adt', RESULT, 0, (c[1],)))
             for s, c in opt_cases(E, st, args[0], fid)]
+
+
+@model('<core::option::Option<T> as core::clone::Clone>::clone', 'None -> None; Some(x) -> Some(x.clone())')
+def m_option_clone(E, st, fid, t, args, dest_ty):
+    r = args[0]
+    if r[0] != 'ref' or r[2][0] not in ('L', 'O'):
+        return E.opaque_call(st, fid, t, args, dest_ty)
+    v = E.load(st, r[2])
+    if not (v[0] == 'adt' and v[1] == OPTION):
+        return E.opaque_call(st, fid, t, args, dest_ty)
+    if v[2] == 0:
+        return ret(st, NONE)
+    inner = v[3][0]
+    ip = E.extend(st, r[2], 0)
+    CL = 'core::clone::Clone'
+    if inner[0] == 'adt':
+        bid = E.impl_index.get((CL, inner[1], 'clone'))
+        if bid is not None:
+            body = E.facts.bodies[bid]
+            out = []
+            for kind, s, val in E.call_local(st, bid, [('ref', False, ip)], E.gs_from_value(st, inner, body)):
+                out.append((kind, s, some(val) if kind == 'ret' else None))
+            return out
+        if inner[1] == CHAIN:
+            return [(k, s2, some(val) if k == 'ret' else None) for k, s2, val in m_chain_clone(E, st, fid, t, [('ref', False, ip)], None)]
+    if inner[0] in ('sliceit', 'int', 'bool', 'ref'):
+        return ret(st, some(inner))
+    return E.opaque_call(st, fid, t, args, dest_ty)
 
 
 @model(['core::option::Option::<T>::as_ref', 'core::option::Option::<T>::as_mut'], 'Option<&T> / Option<&mut T> view')
